@@ -25,15 +25,15 @@ PROPS = {
 
 PROPS["C07"] = {
     "level": "proof",
-    "technique": "Lean 4 theorems about the bit-level reference codec (round trip, canonicity, fits-iff, rejected shapes) + byte-level model of encoding.rs tied to code and reference by differential execution (exhaustive on short strings)",
+    "technique": "Lean 4: both byte-level models of encoding.rs refine the specification's bit-level Algorithms 17/18 for all inputs (compress_refines, decompress_refines); theorems on the reference (round trip, canonicity, fits-iff, rejected shapes) transfer to the byte level; the byte-level models are tied to the code by differential execution (exhaustive on short strings)",
     "rule": "ops = every byte string of length <= 2 for n = 1..3 (complete; length 3 for n = 2 in the thorough tier), token-built strings (valid encodings with exact-fit/slack 0..17 bits, negative zero, boundary unary runs 93..512 at any/last position, dirty padding, bit flips, truncation/extension, wrong n), production-size buffers (625/1239 bytes) steered to end at the buffer end, compress on vectors x budgets around the fit edge; distinct by op line; non-trivial when the property's predicate applies (n >= 1; entries below 12160) and was evaluated against the harness's independent bit-list Algorithm 17/18 and by re-compressing / re-decompressing on the real code",
     "exhaustive": {"quick": (False, "all strings of length <= 2 for n <= 3 enumerated; longer strings generated"),
                     "thorough": (False, "all strings of length <= 2 (n <= 3) and of length 3 (n = 2) enumerated; longer strings generated")},
-    "level_text": "Machine-checked: the byte-level model of decompress (every index, shift, OR, the deferred '-0' flag, the two-stage padding check; constants re-extracted from encoding.rs) computes exactly Algorithm 18 with the cap on every byte string, every n >= 1, both build modes (decompress_refines); on the specification: compress fails iff empty or does not fit; whatever it returns decompresses to the input (entries below 12160); every accepted string is exactly the compression of the returned vector (canonicity, injectivity; also stated for the byte-level decompressor); negative zero, dirty padding, runs >= 95, truncation rejected. The byte-level compress is tied to the specification by three-way differential execution (complete on short vectors/budgets).",
-    "level_note": "Trusted: Lean kernel; byte-level compress <-> Algorithm 17 is checked by execution, not by a theorem; the byte-level model's faithfulness to the Rust code is checked three-valued on every run (exhaustive on all strings of length <= 2); translator (caps 95/95, guards 9/8).",
+    "level_text": "Machine-checked: the byte-level model of decompress (every index, shift, OR, the deferred '-0' flag, the two-stage padding check; constants re-extracted from encoding.rs) computes exactly Algorithm 18 with the cap on every byte string, every n >= 1, both build modes (decompress_refines); on the specification: compress fails iff empty or does not fit; whatever it returns decompresses to the input (entries below 12160); every accepted string is exactly the compression of the returned vector (canonicity, injectivity; also stated for the byte-level decompressor); negative zero, dirty padding, runs >= 95, truncation rejected. The byte-level model of compress (four OR-writes per coefficient at bit offsets into a zeroed buffer, last coefficient separate) computes exactly Algorithm 17 for every vector and every budget and never indexes out of bounds (compress_refines); hence decompress(compress(v)) = v on the two byte-level models (compress_decompress_bytes). Three-way differential execution (complete on short vectors/budgets) ties both models to the Rust code.",
+    "level_note": "Trusted: Lean kernel; the byte-level model's faithfulness to the Rust code is checked three-valued on every run (exhaustive on all strings of length <= 2); translator (caps 95/95, guards 9/8).",
     "trusted_base": TB_COMMON,
     "assumptions": [],
-    "not_proved": ["Codec.compress (byte-level) = Spec.compressRef for all inputs: validated by execution only"],
+    "not_proved": [],
     "release_too": True,
     "release_filter": r"^(de)?compress ",
 }
@@ -182,7 +182,7 @@ PROPS["C01"] = {
     "technique": "Lean 4: coset identity for every sampler outcome z in any commutative ring, centring is norm-minimal, sign/verify agree at the bound (extracted operators); trace refinement: the model recomputes each traced signature's bytes exactly from (key, salt, msg, z) and verifies them; independent specification verifier on every signature",
     "rule": "ops = sign + verify through the public API with an injected replayable generator: 2 keys per variant (8 thorough), messages of length 0, 1, 135, 136, 10000 and random, every signature judged by the library's verify AND by the harness's specification verifier; every 6th signature additionally as a traced op (key polynomials, salt, message, rounded sampler output z) whose signature bytes and verdict the Lean model recomputes exactly; 16-thread shared-key runs; distinct by op line",
     "exhaustive": {"quick": (False, ""), "thorough": (False, "")},
-    "level_text": "Machine-checked integer core, for every hashed point c and EVERY sampler outcome (z0, z1): with f*G = g*F (mod q) and h = g/f, (s1, s2) = (c + z0 g + z1 G, -(z0 f + z1 F)) satisfies c - s2 h = s1; the centred representative never has larger norm; sign retries iff norm > bound while verify accepts iff norm <= bound (operators re-extracted), so whatever sign returns passes the specification's test that verify computes (C02), after a lossless compression (C07). Assembled end to end on coefficient lists and bytes (honest_signature_verifies): for every n = 2^d <= 1024, every key with h*f = g and h*F = G mod q (established for each generated key by C04.keyCheck_ok_relations), every hashed point and every sampler outcome, if the exact pair is within the bound and s2 fits the byte budget then the model of verify (NTT product, centring, norm, byte-level decompression) returns true on the emitted bytes, in both build modes. The floating-point remainder (rounded inverse FFT exact; float norm vs exact norm) is validated per traced signature: the model rebuilds the exact signature bytes from z. Schedules: sign takes &SecretKey, the crate has no interior mutability or globals (translator scan, C15), thread_rng is thread-local; 16-thread shared-key runs are executed as support.",
+    "level_text": "Machine-checked integer core, for every hashed point c and EVERY sampler outcome (z0, z1): with f*G = g*F (mod q) and h = g/f, (s1, s2) = (c + z0 g + z1 G, -(z0 f + z1 F)) satisfies c - s2 h = s1; the centred representative never has larger norm; sign retries iff norm > bound while verify accepts iff norm <= bound (operators re-extracted), so whatever sign returns passes the specification's test that verify computes (C02), after a lossless compression (C07). Assembled end to end on bytes (signed_bytes_verify): for both variants, if the model of sign (norm test, byte-level compress, to_bytes) returns signature bytes for a sampler outcome z instead of retrying, those bytes parse with Signature::from_bytes and verify (hash, byte-level decompress, NTT product, centring, norm test) returns true; its hypotheses (h*f = g, h*F = G, salt length, hash length) are evaluated on every traced signature (hyp=ok). List-level core (honest_signature_verifies): for every n = 2^d <= 1024, every key with h*f = g and h*F = G mod q (established for each generated key by C04.keyCheck_ok_relations), every hashed point and every sampler outcome, if the exact pair is within the bound and s2 fits the byte budget then the model of verify (NTT product, centring, norm, byte-level decompression) returns true on the emitted bytes, in both build modes. The floating-point remainder (rounded inverse FFT exact; float norm vs exact norm) is validated per traced signature: the model rebuilds the exact signature bytes from z. Schedules: sign takes &SecretKey, the crate has no interior mutability or globals (translator scan, C15), thread_rng is thread-local; 16-thread shared-key runs are executed as support.",
     "level_note": "Trusted: Lean kernel + Mathlib ring tactics; the floating-point sampler is a universally quantified parameter (z); its accuracy is checked per trace, not proved; rare retry branches (compression overflow: ~1e-3 per Falcon-1024 signature) are reached only when sampled, the translator additionally pins that the salt is written once.",
     "trusted_base": TB_COMMON + ["floating-point FFT / ffSampling: a parameter of the theorems, validated per trace"],
     "assumptions": ["keys satisfy the NTRU relation and h = g/f (C04)"],
